@@ -69,7 +69,10 @@ def _valid_child(rng, kind, e):
         v = rng.choice(["On", "Off"])
         return f'<oneSwitch name="{n}">{v}</oneSwitch>', (n, v)
     data = bytes(rng.randrange(256) for _ in range(rng.choice([1, 5, 20])))
-    return (f'<oneBLOB name="{n}" size="{len(data)}" format=".bin">{base64.b64encode(data).decode()}</oneBLOB>', (n, (data, ".bin")))
+    # (the format is free text; ".z" conventionally announces a compressed payload - these bytes are not a zlib stream, so the
+    # only things to do with them are to keep them as they are or to refuse them)
+    fmt = rng.choice([".bin", ".bin", ".fits.z", ".z", ".fits.fz"])
+    return (f'<oneBLOB name="{n}" size="{len(data)}" format="{fmt}">{base64.b64encode(data).decode()}</oneBLOB>', (n, (data, fmt)))
 
 
 def hostile(rng, entry, dev, v):
